@@ -674,13 +674,13 @@ pub fn gen_pred(rng: &mut Rng, cols: &[ColDef], kmax: i64, depth: u32) -> Pred {
         },
         Ty::Str if RICH_STRINGS.load(std::sync::atomic::Ordering::Relaxed) && rng.chance(0.35) => {
             // a substring of a value that may exist: 3-5 characters cut out of a generated string
-            let src = match gen_val(rng, c, 0, 0) {
-                Val::S(x) if x.is_ascii() && x.len() >= 3 => x,
-                _ => "alpha0".to_string(),
+            let src: Vec<char> = match gen_val(rng, c, 0, 0) {
+                Val::S(x) if x.chars().count() >= 3 => x.chars().collect(),
+                _ => "alpha0".chars().collect(),
             };
             let n = (rng.range(3, 5) as usize).min(src.len());
             let start = rng.usize(src.len() - n + 1);
-            Pred::Contains(name, src[start..start + n].to_string())
+            Pred::Contains(name, src[start..start + n].iter().collect())
         }
         _ => match rng.below(8) {
             0 => Pred::IsNull(name),
